@@ -84,7 +84,7 @@ def make_sandbox(ctx):
 
 def tree_lookup(model_dir, segs):
     """independent reading of the sandbox: content id of <model_dir>/<segs...> or None"""
-    base = [c for c in posixpath.normpath(model_dir).split("/") if c]
+    base = [c for c in posixpath.normpath(model_dir).split("/") if c and c != "."]      # "" / "." = the sandbox root (cwd)
     return FILES.get("/" + "/".join(base + segs))
 
 
@@ -106,7 +106,8 @@ def build_real(jinja2, sb, desc, reg=None):
     """reg (optional list) collects the mapping objects of the DictLoader leaves in pre-order"""
     k = desc[0]
     if k == "F":
-        return jinja2.FileSystemLoader([sb + sp for sp in desc[1]], **({"encoding": desc[2]} if len(desc) > 2 else {}))
+        # "" stays the empty search path (current directory; the harness changes into the sandbox root for those cases)
+        return jinja2.FileSystemLoader([(sb + sp if sp else "") for sp in desc[1]], **({"encoding": desc[2]} if len(desc) > 2 else {}))
     if k == "K":
         return jinja2.PackageLoader("c28pkg", "templates")
     if k == "D":
@@ -208,7 +209,7 @@ def real_get(jinja2, env, loader, name, sb, how):
     finally:
         _AUDIT["on"] = False
     opens = list(_AUDIT["opens"])
-    strip = lambda p: p[len(sb):] if p.startswith(sb + "/") else "!" + p
+    strip = lambda p: p[len(sb):] if p.startswith(sb + "/") else (p if not p.startswith("/") else "!" + p)   # relative: as is
     o = enc(strip(opens[0])) if len(opens) == 1 else ("~" if not opens else "!multi")
     f = "~" if fn is None else enc(strip(fn))
     cid = src[3:] if src.startswith("id:") else "?" + src[:10]
@@ -684,6 +685,29 @@ def run_more(ctx, jinja2, sb, names):
         want = expected_listing(search_dirs(desc))
         if sorted(ld.list_templates()) != sorted(want):
             ctx.reject({"kind": "ctor", "loader": label}, f"{label}: list_templates() = {sorted(ld.list_templates())}, expected {sorted(want)}")
+    # the empty search path (= current directory) and names a shell would expand: '~', '~user', '$HOME', '%TEMP%'
+    home = os.path.join(os.path.dirname(sb), "home")
+    os.makedirs(home, exist_ok=True)
+    for fn in ("secret", "a"):
+        open(os.path.join(home, fn), "w").write("id:89")
+    old_cwd, old_home = os.getcwd(), os.environ.get("HOME")
+    os.chdir(sb)
+    os.environ["HOME"] = home
+    try:
+        tilde = ["~", "~root", "~nobody", "$HOME", "t1", "a", "secret", "..", ""]
+        tnames = list(names_exhaustive(tilde, 3))
+        descs = [(("F", [""]), ""), (("F", ["", "/t2"]), ""), (("C", [("D", []), ("F", [""])]), ""), (("X", "/", [("p", ("F", [""]))]), "p/")]
+        todo = [(desc, build_real(jinja2, sb, desc), pre + n) for desc, pre in descs for n in tnames]
+        out = ctx.driver("ldr", [fs_line(dsc, n) for dsc, _, n in todo])
+        for (dsc, ld, n), ml in zip(todo, out):
+            check_one(ctx, jinja2, env, sb, dsc, ld, n, ml, "get_source")
+    finally:
+        os.chdir(old_cwd)
+        if old_home is None:
+            os.environ.pop("HOME", None)
+        else:
+            os.environ["HOME"] = old_home
+        shutil.rmtree(home, ignore_errors=True)
     # followlinks only affects list_templates; a listed name must resolve (symbolic links are outside M and outside the
     # containment oracle: reading through a link placed inside a search directory is the documented behaviour)
     os.makedirs(sb + "/t3/real")
@@ -917,6 +941,13 @@ def replay(ctx, data):
         desc = case["loader"]   # lists work like the tuples of the generator
         sb = make_sandbox(ctx)
         sys.path.insert(0, sb + "/pkgs")
+        old_cwd, old_home = os.getcwd(), os.environ.get("HOME")
+        home = os.path.join(os.path.dirname(sb), "home")
+        os.makedirs(home, exist_ok=True)
+        for fn in ("secret", "a"):
+            open(os.path.join(home, fn), "w").write("id:89")
+        os.chdir(sb)
+        os.environ["HOME"] = home
         try:
             env = jinja2.Environment()
             ld = build_real(jinja2, sb, desc)
@@ -927,6 +958,12 @@ def replay(ctx, data):
             if of:
                 ctx.reject(case, of)
         finally:
+            os.chdir(old_cwd)
+            if old_home is None:
+                os.environ.pop("HOME", None)
+            else:
+                os.environ["HOME"] = old_home
+            shutil.rmtree(home, ignore_errors=True)
             sys.path.remove(sb + "/pkgs")
             for k2 in [k2 for k2 in sys.modules if k2 == "c28pkg" or k2.startswith("c28pkg.")]:
                 del sys.modules[k2]
